@@ -265,3 +265,12 @@ def check(run):
             run.violation("F-PATH/ne-negation", k, where(ne, r), f"__ne__ returns {norm(v)}, not the negation of __eq__")
         else:
             run.incomplete("F-PATH/ne-negation", k, where(ne, r), f"return expression not recognised: {norm(v)}")
+    # "a copy of a grid equals the grid": copy() re-runs Grid.__init__, so what the getters store must already be in the range __init__ normalises to,
+    # and that normalisation must be idempotent (the modulo form); both are C04 obligations evaluated here as well
+    from ..rules.common import dataflow, emit
+    from .c04 import _accept_wrap_by_callers, _lon_normalisation
+    R = dataflow(P, run.tier)
+    emit(run, R, {"RANGE/store-lon"}, files=["uxarray/grid/coordinates.py", "uxarray/grid/grid.py"])
+    _accept_wrap_by_callers(run, P)
+    _lon_normalisation(run, P)
+
